@@ -1,25 +1,167 @@
 (* C02 — satisfiable with the caller's assets implies a satisfaction is found.
-   Full statement (NOT yet proved; kept visible):
+   Full statement (script level; NOT yet proved in this form; kept visible):
      forall well-typed m (B), assets A, environment e:
        (exists w built from A, accepts e (enc m) w = true) ->
-       s_stack (snd (sat_dissat ke se true root_has_sig m)) is a Stack          (malleable mode)
-     and for sane m with all preimages known the same for the non-malleable mode.
-   Proved here (the part the per-run check relies on): the witnesses the check proposes as
-   counter-examples — entries of the specification table built from the caller's assets —
-   really spend, for every fragment nesting (multisig leaves excepted).  So a "BAD C02"
-   report of the check is a genuine violation, never a false alarm of the table.
-   Missing: completeness of the satisfier model w.r.t. the table (satisfier finds a Stack
-   whenever all_sat is non-empty) and Theorem B (any accepted witness is a table entry). *)
-From Verif Require Import Exec Ser Ast Types TypeCheck SatSpec ExecLemmas TheoremA.
+       satisfy ke se f true root_has_sig m = Some _                              (malleable mode)
+     and, for sane m whose hash preimages are all known, the same for satisfy .. false .. (non-malleable mode).
+
+   PROVED (table level: "a witness built from A exists" is read as "the specification's
+   (dis)satisfaction table all_sat ke A m has an entry"; Theorem A — C02_table_witness_spends_partial —
+   shows every such entry really spends, so the table is a sound source of counter-examples):
+
+   * C02_mall_complete          malleable mode, EVERY fragment nesting, thresh(k, ..) with k < n included:
+                                table entry (resp. dissatisfaction entry) => the model returns a Stack.
+                                Hypotheses: linked (satisfier view = assets); the lock values the caller
+                                holds are mutually compatible (they stem from ONE nLockTime and ONE
+                                nSequence: two met after() have the same unit, two met older() too —
+                                otherwise concatenate_rev legitimately answers Impossible);
+                                thresh_fit: in every k<n thresh the i64 difference of the two witness
+                                sizes of a child lies strictly between the sentinels i64::MIN / i64::MAX
+                                the sort uses (absence of overflow of `as i64 - as i64`).
+   * C02_thresh_fit_of_bound    thresh_fit holds for every script with fewer than 2^55 witness elements
+                                when keys weigh <= 73 bytes and signatures < 73 bytes (all real contexts).
+   * C02_mall_satisfy_complete  the same down to `satisfy .. = Some bs` (templates can always be completed:
+                                C02_template_completes).
+   * C02_nonmall_complete       NON-malleable mode, every fragment nesting (k<n thresh included) of typed,
+                                non-malleable ("m") scripts with 1 <= k <= n, no raw_pk_h, every hash
+                                preimage of the script known (nm_wf), root_has_sig = true (safe root):
+                                the satisfaction is never Unavailable; it is a Stack whenever the table has
+                                an entry; "s" fragments yield signed-or-Impossible satisfactions.
+   * C02_nonmall_dissat         "e" fragments: the dissatisfaction is a signature-free lock-free Stack;
+                                "f" fragments: it is signed or Impossible.
+   * C02_nonmall_satisfy_complete   sane script (m, s) => satisfy .. false (root "s") .. = Some bs.
+   * tightness: C02_nonmall_needs_preimages (without the preimage the sane script
+     and_v(v:pk(2),or_i(pk(0),sha256(H))) gets Unavailable although [sig0 1 sig2] spends — the
+     library's documented conservatism, which is why the property demands all preimages),
+     C02_nonmall_needs_safe_root (or_i(pk(0),after(10)), not "s"), C02_mall_thresh_fit_needed (model only:
+     a 2^63-byte signature).
+   * C02_mall_complete_partial  (earlier, n-of-n thresholds only) is kept; it is subsumed.
+
+   STILL MISSING for the full statement: Theorem B (every witness the Script semantics accepts that is
+   built from A is, up to the malleations the type system allows, a table entry); raw_pk_h (not modelled:
+   it only arises from decoding). *)
+From Verif Require Import Exec Ser Ast Types TypeCheck SatSpec Sat ExecLemmas TheoremA SatProofs CompleteProofs
+  CompleteThresh CompleteNonMall.
 
 Theorem C02_table_witness_spends_partial :
-  forall (e : env) (ke : keyenv) (A : assets),
-  (forall z, (0 <= z < 2147483648)%Z -> num_operand 4 (num_encode z) = Some z) /\
-  (forall z, (0 <= z < 2147483648)%Z -> num_operand 5 (num_encode z) = Some z) /\
-  (forall z, (0 < z < 2147483648)%Z -> truthy (num_encode z) = true) /\
-  (forall v z, num_operand 4 v = Some z -> truthy v = negb (z =? 0)%Z) ->
-  assets_ok e ke A ->
+  forall (e : env) (ke : keyenv) (A : assets), assets_ok e ke A -> (forall kbs, e_sigok e kbs [] = false) ->
   forall (m : ms) (t : ty), type_of m = ROk t -> c_base (t_corr t) = BB -> wf e ke m -> no_multi m ->
   forall w, In w (all_sat ke A m) -> accepts e (enc ke m) w = true.
 Proof. exact witness_script_accepts. Qed.
 Print Assumptions C02_table_witness_spends_partial.
+
+Theorem C02_mall_complete_partial :
+  forall (ke : keyenv) (A : assets) (se : senv) (f : fill), linked ke A se f ->
+  (forall t1 t2, se_after se t1 = true -> se_after se t2 = true ->
+     Bool.eqb (N.ltb t1 500000000) (N.ltb t2 500000000) = true) ->
+  (forall t1 t2, se_older se t1 = true -> se_older se t2 = true ->
+     Bool.eqb (rel_is_time t1) (rel_is_time t2) = true) ->
+  forall (rhs : bool) (m : ms), no_partial_thresh m -> goal ke A se rhs m.
+Proof. exact mall_complete. Qed.
+Print Assumptions C02_mall_complete_partial.
+
+(* what [goal] says *)
+Example C02_goal_meaning : forall ke A se rhs m, goal ke A se rhs m ->
+  (all_sat ke A m <> [] -> is_stack (s_stack (snd (sat_dissat ke se true rhs m))) = true) /\
+  (all_dsat ke A m <> [] -> is_stack (s_stack (fst (sat_dissat ke se true rhs m))) = true).
+Proof. intros ke A se rhs m [_ [_ [H1 H2]]]. split; assumption. Qed.
+
+(* ---- malleable mode, all thresholds ---- *)
+Theorem C02_mall_complete :
+  forall (ke : keyenv) (A : assets) (se : senv) (f : fill), linked ke A se f ->
+  (forall t1 t2, se_after se t1 = true -> se_after se t2 = true ->
+     Bool.eqb (N.ltb t1 500000000) (N.ltb t2 500000000) = true) ->
+  (forall t1 t2, se_older se t1 = true -> se_older se t2 = true ->
+     Bool.eqb (rel_is_time t1) (rel_is_time t2) = true) ->
+  forall (rhs : bool) (m : ms), thresh_fit ke se rhs m -> goal ke A se rhs m.
+Proof. exact mall_complete_thresh. Qed.
+Print Assumptions C02_mall_complete.
+
+Theorem C02_thresh_fit_of_bound :
+  forall (ke : keyenv) (se : senv),
+  (forall k, (se_pklen se k <= 73)%N) -> (forall k sz, se_sig se k = Some sz -> (sz < 73)%N) ->
+  forall (rhs : bool) (m : ms), (N.of_nat (max_elems ke m) < 2 ^ 55)%N -> thresh_fit ke se rhs m.
+Proof. exact fit_of_bound. Qed.
+Print Assumptions C02_thresh_fit_of_bound.
+
+Theorem C02_template_completes :
+  forall (ke : keyenv) (A : assets) (se : senv) (f : fill), linked ke A se f ->
+  forall (mall rhs : bool) (m : ms),
+    is_stack (s_stack (snd (sat_dissat ke se mall rhs m))) = true -> exists bs, satisfy ke se f mall rhs m = Some bs.
+Proof. exact satisfy_of_stack. Qed.
+Print Assumptions C02_template_completes.
+
+Theorem C02_mall_satisfy_complete :
+  forall (ke : keyenv) (A : assets) (se : senv) (f : fill), linked ke A se f -> locks_compatible se ->
+  forall (rhs : bool) (m : ms), thresh_fit ke se rhs m ->
+    all_sat ke A m <> [] -> exists bs, satisfy ke se f true rhs m = Some bs.
+Proof. exact mall_satisfy_complete. Qed.
+Print Assumptions C02_mall_satisfy_complete.
+
+(* ---- non-malleable mode ---- *)
+Theorem C02_nonmall_complete :
+  forall (ke : keyenv) (A : assets) (se : senv) (f : fill), linked ke A se f -> locks_compatible se ->
+  forall (m : ms) (t : ty), nm_wf se m -> type_of m = ROk t -> m_nm (t_mall t) = true ->
+    let s := snd (sat_dissat ke se false true m) in
+    s_stack s <> WUnavailable /\
+    (m_signed (t_mall t) = true -> is_imp (s_stack s) = true \/ s_has_sig s = true) /\
+    (all_sat ke A m <> [] -> is_stack (s_stack s) = true).
+Proof. exact nonmall_complete. Qed.
+Print Assumptions C02_nonmall_complete.
+
+Theorem C02_nonmall_dissat :
+  forall (ke : keyenv) (A : assets) (se : senv) (f : fill), linked ke A se f -> locks_compatible se ->
+  forall (m : ms) (t : ty), nm_wf se m -> type_of m = ROk t ->
+    let d := fst (sat_dissat ke se false true m) in
+    (m_dissat (t_mall t) = DNone -> is_imp (s_stack d) = true \/ s_has_sig d = true) /\
+    (m_nm (t_mall t) = true -> m_dissat (t_mall t) = DUnique ->
+       is_stack (s_stack d) = true /\ s_has_sig d = false /\ s_abs d = None /\ s_rel d = None).
+Proof. exact nonmall_dissat. Qed.
+Print Assumptions C02_nonmall_dissat.
+
+Theorem C02_nonmall_satisfy_complete :
+  forall (ke : keyenv) (A : assets) (se : senv) (f : fill), linked ke A se f -> locks_compatible se ->
+  forall (m : ms) (t : ty), nm_wf se m -> type_of m = ROk t ->
+    m_nm (t_mall t) = true -> m_signed (t_mall t) = true ->
+    all_sat ke A m <> [] -> exists bs, satisfy ke se f false (m_signed (t_mall t)) m = Some bs.
+Proof. exact nonmall_satisfy_complete. Qed.
+Print Assumptions C02_nonmall_satisfy_complete.
+
+(* ---- the hypotheses are needed ---- *)
+Theorem C02_nonmall_needs_preimages :
+  exists ke A se f m t, linked ke A se f /\ locks_compatible se /\ type_of m = ROk t /\
+    m_nm (t_mall t) = true /\ m_signed (t_mall t) = true /\ all_sat ke A m <> [] /\
+    s_stack (snd (sat_dissat ke se false true m)) = WUnavailable /\
+    is_stack (s_stack (snd (sat_dissat ke se true true m))) = true.
+Proof. exact nonmall_needs_preimages. Qed.
+Print Assumptions C02_nonmall_needs_preimages.
+
+Theorem C02_nonmall_needs_safe_root :
+  exists ke A se f m t, linked ke A se f /\ locks_compatible se /\ type_of m = ROk t /\
+    m_nm (t_mall t) = true /\ m_signed (t_mall t) = false /\ all_sat ke A m <> [] /\
+    s_stack (snd (sat_dissat ke se false (m_signed (t_mall t)) m)) = WUnavailable.
+Proof. exact nonmall_needs_safe_root. Qed.
+Print Assumptions C02_nonmall_needs_safe_root.
+
+Theorem C02_mall_thresh_fit_needed :
+  exists ke A se f m, linked ke A se f /\ locks_compatible se /\ all_sat ke A m <> [] /\
+    s_stack (snd (sat_dissat ke se true true m)) = WImpossible.
+Proof. exact mall_thresh_fit_needed. Qed.
+Print Assumptions C02_mall_thresh_fit_needed.
+
+(* ---- non-vacuity: thresh(2, pk(0), s:pk(1), s:pk(2)), signatures for keys 0 and 2 only ---- *)
+Example C02_ex_hypotheses :
+  linked c02x_ke (c02x_A true) (c02x_se true) (c02x_f true) /\ locks_compatible (c02x_se true) /\
+  thresh_fit c02x_ke (c02x_se true) true c02x_thresh /\ nm_wf (c02x_se true) c02x_thresh /\
+  (exists t, type_of c02x_thresh = ROk t /\ m_nm (t_mall t) = true /\ m_signed (t_mall t) = true).
+Proof. exact (conj (c02x_linked true) (conj (c02x_locks true) (conj c02x_thresh_fit (conj c02x_thresh_wf c02x_thresh_typed)))). Qed.
+Example C02_ex_table : all_sat c02x_ke (c02x_A true) c02x_thresh = [[[0; 7]; []; [2; 7]]]%N.
+Proof. exact c02x_thresh_table. Qed.
+Example C02_ex_mall : s_stack (snd (sat_dissat c02x_ke (c02x_se true) true true c02x_thresh)) = WStack [PhSig 2%N; PhPushZero; PhSig 0%N].
+Proof. exact c02x_thresh_mall. Qed.
+Example C02_ex_nonmall : s_stack (snd (sat_dissat c02x_ke (c02x_se true) false true c02x_thresh)) = WStack [PhSig 2%N; PhPushZero; PhSig 0%N].
+Proof. exact c02x_thresh_nonmall. Qed.
+Example C02_ex_satisfy_mall : satisfy c02x_ke (c02x_se true) (c02x_f true) true true c02x_thresh = Some [[2; 7]; []; [0; 7]]%N.
+Proof. exact c02x_thresh_satisfy_mall. Qed.
+Example C02_ex_satisfy_nonmall : satisfy c02x_ke (c02x_se true) (c02x_f true) false true c02x_thresh = Some [[2; 7]; []; [0; 7]]%N.
+Proof. exact c02x_thresh_satisfy_nonmall. Qed.
